@@ -26,7 +26,43 @@ TIMEOUT = 30 * 60
 
 
 def si_bytes(si):
-    return b"%016d" % si
+    # even storage indexes share one 2-character prefix directory, odd ones another
+    return bytes([0x30 + 8 * (si % 2)]) + b"%015d" % si
+
+
+def prefix_ids(n_si=4):
+    """si -> id of its prefix directory (= smallest si with the same base32 prefix)"""
+    from allmydata.storage.common import storage_index_to_dir
+    first = {}
+    res = {}
+    for si in range(n_si):
+        p = storage_index_to_dir(si_bytes(si)).split(os.sep)[0]
+        first.setdefault(p, si)
+        res[si] = first[p]
+    return res
+
+
+def dump_dirs(ss, n_si=4):
+    """Existing directories below shares/: FD.si (final bucket dir), FP.p, ID.si (incoming bucket dir), IP.p"""
+    from allmydata.storage.common import storage_index_to_dir
+    pid = prefix_ids(n_si)
+    out = {"FD": [], "FP": [], "ID": [], "IP": []}
+    for si in range(n_si):
+        d = storage_index_to_dir(si_bytes(si))
+        if os.path.isdir(os.path.join(ss.sharedir, d)):
+            out["FD"].append(si)
+        if os.path.isdir(os.path.join(ss.incomingdir, d)):
+            out["ID"].append(si)
+        if pid[si] == si:
+            if os.path.isdir(os.path.join(ss.sharedir, d.split(os.sep)[0])):
+                out["FP"].append(si)
+            if os.path.isdir(os.path.join(ss.incomingdir, d.split(os.sep)[0])):
+                out["IP"].append(si)
+    # anything else below shares/ (unknown directory) is reported verbatim
+    known = set(storage_index_to_dir(si_bytes(si)).split(os.sep)[0] for si in range(n_si))
+    extra = sorted(x for x in os.listdir(ss.sharedir) if x != "incoming" and x not in known)
+    toks = ["%s.%d" % (t, n) for t in ("FD", "FP", "ID", "IP") for n in sorted(out[t])] + ["?" + x for x in extra]
+    return ",".join(toks) or "-"
 
 
 def secrets(secret_id):
@@ -543,7 +579,7 @@ class Resolver:
         return [o[0][0], wid]
 
 
-def run_history(ctx, pid, abstract_ops, readonly=False, reserved=0, concrete=False, sis=(0, 1, 2)):
+def run_history(ctx, pid, abstract_ops, readonly=False, reserved=0, concrete=False, sis=(0, 1, 2), dirs=False):
     """Execute (resolving abstract ops unless `concrete`); returns (concrete_ops, line, out, violations)."""
     runner = Runner(ctx, pid, readonly=readonly, reserved=reserved)
     res = Resolver(ctx.rng)
@@ -556,11 +592,14 @@ def run_history(ctx, pid, abstract_ops, readonly=False, reserved=0, concrete=Fal
                 conc.append(c)
                 l, out = runner.op(c)
                 lines.append(l)
-                outs.append(out)
+                outs.append(out + "#" + dump_dirs(runner.ss) if dirs else out)
                 runner.check_state(sis)
                 if pid == "C28" and c[0] == "A":
                     c28_after_alloc(runner)
         head = "imm %d %d" % (1 if readonly else 0, reserved)
+        if dirs:
+            head = "immd %d %d %s" % (1 if readonly else 0, reserved,
+                                      ",".join("%d=%d" % kv for kv in sorted(prefix_ids().items())))
         return conc, (head + " " + " ".join(lines)).strip(), " ".join(outs) or "-", runner.viol
     finally:
         runner.cleanup()
